@@ -16,6 +16,7 @@ import (
 	"math/rand"
 	"sort"
 	"strconv"
+	"strings"
 	"time"
 
 	"github.com/ipfs/ipfs-cluster/api"
@@ -326,6 +327,20 @@ func (e *env) meta(class string) map[string]string {
 		return map[string]string{ka: ""}
 	case "two":
 		return map[string]string{ka: vx, kb: vy}
+	case "mk-inner":
+		return map[string]string{"x-meta-y": vx}
+	case "mk-start":
+		return map[string]string{"meta-meta-a": vx}
+	case "mk-word":
+		return map[string]string{"meta": vx}
+	case "mk-dash":
+		return map[string]string{"meta-": vx}
+	case "mk-collide":
+		return map[string]string{"meta-a": vx, "a": vy}
+	case "mk-long":
+		return map[string]string{strings.Repeat("k", 1990) + e.str("metakey-long", "ascii"): vy}
+	case "mk-special":
+		return map[string]string{"%+ =&;#?/%41%zz" + e.str("metakey-sp", "unicode"): vx, "meta-%2B": vy}
 	}
 	panic("unknown metadata class " + class)
 }
@@ -334,7 +349,7 @@ func (e *env) metaClass(m map[string]string) string {
 	if m == nil {
 		return "none"
 	}
-	for _, c := range []string{"empty", "ax", "ex", "ae", "two"} {
+	for _, c := range []string{"empty", "ax", "ex", "ae", "two", "mk-inner", "mk-start", "mk-word", "mk-dash", "mk-collide", "mk-long", "mk-special"} {
 		w := e.meta(c)
 		if len(w) != len(m) {
 			continue
